@@ -130,11 +130,7 @@ def cmp_batch(expect, r):
             # WHICH broken rule a game with several defects reports first is not part of the property (the entry
             # must carry the message the solo solve raises, which `judge` checks): not compared with the model
         if kind == "solved":
-            o = {"outcome": "ok", "res": [x["final_strategies"], x["reachability_strategies"], x["rewards"], x["probabilities"],
-                                           x["n_iterations_reach"], x["n_iterations_rew"], x["prob_min_rew"], x["rew_min_reach"]]}
-            d = wire.cmp_solve(o, m["out"])
-            if d:
-                return f"{e['key']}: {d}"
+            pass           # the values of a solved entry: compared with the SOLO solve by `judge`, with the model by C01..C05, C14
         elif x["rewards"] is not None:
             return f"{e['key']}: failed entry carries values"
     return None
